@@ -73,6 +73,8 @@ func instancesFor(prop, tier string) []*Instance {
 		c10Instances(add, thorough)
 	case "C13":
 		c13Instances(add, thorough)
+	case "C07":
+		c07Instances(add, thorough)
 	case "C08":
 		c08Instances(add, thorough)
 	case "C03":
@@ -730,7 +732,7 @@ func c08Instances(add func(*Instance), thorough bool) {
 	// in-place AndNot that empties the first aligned chunk, keeps the second and carries a receiver-only tail chunk
 	// to a lower slot; then a mutation inside that (two-element, buffer-backed) tail chunk
 	for ld := 0; ld <= 2; ld++ {
-		for _, c1 := range []int{0, 1, 3} {
+		for _, c1 := range []int{0, 1} {
 			add(&Instance{Func: "VerifC08Buffer", Params: P("ak", 3, "akeys", 4, "ac0", 1, "ac1", 220, "ac2", 2, "L", 7, "eff", 1, "ld", ld, "detach", 0,
 				"steps", 2, "c0", 5, "c1", c1, "bop", 3, "xb", 131072, "xm", 65535, "sb", 131072, "sm", 65535, "len", 3,
 				"bk", 2, "bkeys", 4, "bc0", 2, "bc1", 21)})
@@ -741,6 +743,52 @@ func c08Instances(add func(*Instance), thorough bool) {
 		for _, c0 := range []int{0, 1, 3, 5} {
 			add(&Instance{Func: "VerifC08Buffer", Params: P("ak", 2, "akeys", 4, "ac0", 100, "ac1", 1, "L", 7, "eff", 1, "ld", ld, "detach", 0, "steps", 1, "c0", c0,
 				"xb", 4150, "xm", 15, "sb", 4150, "sm", 15, "len", 3, "bk", 1, "bkeys", 4, "bc0", 21, "bop", 1)})
+		}
+	}
+}
+
+func c07Instances(add func(*Instance), thorough bool) {
+	win := P("L", 7, "eff", 1, "xb", 0, "xm", 262143, "sb", 0, "sm", 262143, "len", 3, "w", 1)
+	// sequential producers: symbolic keys (all alignments), symbolic copy-on-write flags and switches
+	ab := with(win, "ak", 2, "akeys", 0, "acow", 1, "ac0", 1, "ac1", 1, "bk", 2, "bkeys", 0, "bcow", 1, "bc0", 1, "bc1", 1)
+	for op := 0; op <= 15; op++ {
+		for mut := 0; mut <= 2; mut++ {
+			for _, mk := range []int{0, 1} {
+				pp := with(ab, "op", op, "mut", mut, "mk", mk, "pre", 0)
+				if op == 9 { // static Flip: range window
+					pp = with(pp, "sb", 0, "sm", 65535, "len", 3, "akeys", 4, "bkeys", 4)
+				}
+				if op == 10 { // AddOffset: offsets around one chunk
+					pp = with(pp, "off", 65530, "offm", 15, "akeys", 4, "bkeys", 4)
+				}
+				tier := 0
+				if mk == 0 && mut == 2 {
+					tier = 1
+				}
+				add(&Instance{Func: "VerifC07Op", Tier: tier, Params: pp})
+			}
+		}
+		// input a shares all its chunks with a copy-on-write clone source a0
+		for _, mut := range []int{0, 3} {
+			pp := with(ab, "op", op, "mut", mut, "mk", 1, "pre", 1, "akeys", 4, "bkeys", 4)
+			if op == 10 {
+				pp = with(pp, "off", 65530, "offm", 15)
+			}
+			add(&Instance{Func: "VerifC07Op", Params: pp})
+		}
+	}
+	// goroutine-based producers (one deterministic schedule): anchored array chunks, interleaved concrete keys
+	par := with(win, "ak", 2, "akeys", 6, "acow", 0, "ac0", 22, "ac1", 21, "bk", 2, "bkeys", 5, "bcow", 0, "bc0", 21, "bc1", 21, "xb", 56, "xm", 15)
+	for _, op := range []int{16, 17, 18} {
+		for _, w := range []int{1, 2} {
+			for _, emp := range []int{0, 1} {
+				for _, mut := range []int{0, 1} {
+					if w == 2 && (emp == 1 || mut == 1) && !thorough {
+						continue
+					}
+					add(&Instance{Func: "VerifC07Op", Params: with(par, "op", op, "w", w, "emp", emp, "mut", mut, "mk", 0, "pre", 0)})
+				}
+			}
 		}
 	}
 }
